@@ -41,7 +41,7 @@ ASSUMPTIONS = [
 def BOUNDS(tier):
     if tier == "quick":
         return {"plans": [[2, 3], [3, 1]], "raises": 2, "styles": 6}
-    return {"plans": [[4, 2]], "raises": 3, "styles": 6}
+    return {"plans": [[3, 2], [4, 1]], "raises": 3, "styles": 6}
 
 
 def schema(tier):
